@@ -261,7 +261,7 @@ func (p *c15) Run(i int) (res fw.Result) {
 			if s != ws || f != wf || b != v {
 				res.Fail("bool", key, fmt.Sprintf("%v coerces to (%q, %v, %v)", v, s, f, b), nil)
 			}
-		case gen.KindSlice, gen.KindMap, gen.NilableNum, gen.NilableBool:
+		case gen.KindSlice, gen.KindMap, gen.NilableNum, gen.NilableBool, gen.OwnOverNil, *gen.OwnOverNil:
 			// a nil slice, map or function of a type with methods is a value like any other: the method is there to
 			// be called (only a nil pointer has nothing to call it on)
 			st, isS := z.V.(stick.Stringer)
